@@ -366,7 +366,22 @@ def semicolon_neighbour(case):
 
 
 ref.ANON_MATCHES_ABSENT = True  # '{{...}}' is documented as matching everything, an absent optional field included
-PREDICATES = {"precedence_sensitive": precedence_sensitive, "elif_match": elif_match, "semicolon_neighbour": semicolon_neighbour}
+def multiline_literal_in_replacement(case):
+    """F-C14-04: the replacement text contains a string literal that spans several lines (its continuation lines are
+    indented together with the code when the match is indented)."""
+    import io
+    import tokenize
+    text = re.sub(r"\{\{(\w+|\.\.\.)\}\}", "vfslot", case["repl"])
+    try:
+        for tok in tokenize.generate_tokens(io.StringIO(text).readline):
+            if tok.type in (tokenize.STRING, getattr(tokenize, "FSTRING_MIDDLE", -1)) and "\n" in tok.string:
+                return True
+    except (tokenize.TokenError, SyntaxError, IndentationError):
+        return False
+    return False
+
+
+PREDICATES = {"multiline_literal_in_replacement": multiline_literal_in_replacement, "precedence_sensitive": precedence_sensitive, "elif_match": elif_match, "semicolon_neighbour": semicolon_neighbour}
 
 
 def evaluate(case, info=None):
@@ -600,6 +615,9 @@ def run_shard(spec):
                 "cli": data.draw(st.integers(0, 7)) == 0}
         if precedence_sensitive(case):
             acc.excluded["F-C14-01"] += 1  # known finding: textual splice ignores operator precedence
+            return
+        if multiline_literal_in_replacement(case):
+            acc.excluded["F-C14-04"] += 1  # known finding: a multi-line literal in the replacement text is re-indented
             return
         if semicolon_neighbour(case):
             acc.excluded["F-C14-03"] += 1
